@@ -365,11 +365,12 @@ class VBPTC12873:
         # calculate 5-bit checksum and put bits in correct table positions
         cs5 = FiveBitChecksum.calculate(bits_deinterleaved.tobytes())
         cs5_bits = int2ba(cs5, length=5)
-        table[2][10] = cs5_bits[4]
-        table[3][10] = cs5_bits[3]
+        # int2ba is big-endian, cs5_bits[0] is CS(4) which belongs to row 3, CS(0) to row 7
+        table[2][10] = cs5_bits[0]
+        table[3][10] = cs5_bits[1]
         table[4][10] = cs5_bits[2]
-        table[5][10] = cs5_bits[1]
-        table[6][10] = cs5_bits[0]
+        table[5][10] = cs5_bits[3]
+        table[6][10] = cs5_bits[4]
 
         # fill rows 0 - 6 with hamming
         for row in range(0, 7):
